@@ -47,6 +47,7 @@ func judgeWFail(r *mon.Rec, t *testing.T, sc wfailT) {
 				for i := 1; i <= sc.Burst; i++ {
 					conn.Inject(sconn.Datagram{B: f.Datagram("matching", xid, i, f.OtherType()), From: dest, Nonce: i, Class: "other-type"})
 				}
+				synctest.Wait() // every datagram has been routed (or the receive loop is parked on the full buffer) before the write fails
 			}
 			conn.WriteErr = func(k int) error {
 				if k == sc.FailTry {
